@@ -117,6 +117,7 @@ class Ctx:
         self.violations = {}
         self.inconclusive = []
         self.notes = {}
+        self.reach = {}
         self._sample_every = 1
 
     # -- randomness ------------------------------------------------------
@@ -205,6 +206,7 @@ class Ctx:
             "violations": self.violations,
             "inconclusive": self.inconclusive,
             "notes": self.notes,
+            "reach": self.reach,
         }
 
     def merge(self, d):
@@ -226,6 +228,8 @@ class Ctx:
             self.mark_inconclusive(w)
         for k, v in d.get("notes", {}).items():
             self.notes.setdefault(k, v)
+        for k, v in d.get("reach", {}).items():
+            self.reach[k] = self.reach.get(k, 0) + v
 
 
 # ---------------------------------------------------------------------------
@@ -244,12 +248,36 @@ def load_module(prop):
 
 
 def run_module(mod, ctx):
+    from vf.reach import Reach
+    reach = Reach(REPO)
+    reach.start()
     try:
         mod.run(ctx)
     except Inconclusive as e:
         ctx.mark_inconclusive(str(e))
     except Exception:
         ctx.mark_inconclusive("harness error: " + traceback.format_exc()[-1500:])
+    finally:
+        reach.stop()
+        for k, v in reach.table().items():
+            ctx.reach[k] = ctx.reach.get(k, 0) + v
+
+
+def reach_report(mod, ctx):
+    """Which anchored mechanisms (properties.jsonl) ran under the monitors."""
+    from vf import reach as R
+    anchors = R.anchors_of(ctx.prop, VERIF)
+    exempt = getattr(mod, "REACH_EXEMPT", {})
+    rows, never = [], []
+    keys = list(ctx.reach)
+    for a in anchors:
+        hits = R.match(a, keys)
+        name = f"{a[0]}:{a[1]}"
+        n = sum(ctx.reach[h] for h in hits)
+        rows.append({"anchor": name, "calls_capped": n, "functions": hits[:6]})
+        if n == 0 and name not in exempt:
+            never.append(name)
+    return rows, never
 
 
 def run_sharded(prop, tier, seed, ctx, timeout):
@@ -311,6 +339,7 @@ def write_evidence(mod, ctx):
     if ex is not None:
         cov["exhaustive"] = bool(ex(ctx))
         cov["exhaustive_note"] = getattr(mod, "EXHAUSTIVE_NOTE", "")
+    cov["indipy_functions_executed"] = len(ctx.reach)
     if ctx.notes:
         cov["notes"] = ctx.notes
     if ctx.inconclusive:
@@ -435,6 +464,11 @@ def main(argv):
         faulthandler.dump_traceback_later(getattr(mod, "QUICK_TIMEOUT", 900), exit=True)
         run_module(mod, ctx)
         faulthandler.cancel_dump_traceback_later()
+    rows, never = reach_report(mod, ctx)
+    ctx.notes["anchored_functions_reached"] = rows
+    if never and not ctx.violations:
+        for nm in never:
+            ctx.mark_inconclusive(f"anchored mechanism {nm} was never executed by the workload")
     if not ctx.violations and not ctx.inconclusive:
         if ctx.evaluations == 0 or len(ctx.distinct) < 2:
             ctx.mark_inconclusive("the workload produced fewer than two distinct non-trivial cases")
